@@ -1,5 +1,7 @@
 import KitProofs.Props.C01
 import KitProofs.Props.C01NoPanic
+import KitProofs.Props.C01Code
 import KitProofs.Census
 #census KitProofs.Props.C01
 #census KitProofs.Props.C01NoPanic
+#census KitProofs.Props.C01Code
